@@ -809,7 +809,8 @@ pub fn gen_c03<W: Write>(out: &mut W, thorough: bool, seed: u64) {
     // superset, subset, and lists of which neither contains the other - occurs with equal numbers)
     let n_eq = if thorough { 20000 } else { 2000 };
     for _ in 0..n_eq {
-        let base = r.pick(&lists).clone();
+        // one case in six: the number has no variable of its own (a constant), so that one layout can be the EMPTY list
+        let base = if r.chance(1, 6) { Vec::new() } else { r.pick(&lists).clone() };
         let k = base.len();
         let real = r.dyadic();
         let coefs: Vec<f64> = base.iter().map(|_| if r.chance(1, 5) { 0.0 } else { r.dyadic() }).collect();
@@ -818,8 +819,10 @@ pub fn gen_c03<W: Write>(out: &mut W, thorough: bool, seed: u64) {
         let mut layouts: Vec<Vec<&str>> = Vec::new();
         for _ in 0..2 {
             let mut l: Vec<&str> = base.clone();
+            // one layout in three carries no extra variable at all
+            let bare = r.chance(1, 3);
             for v in POOL.iter() {
-                if !base.contains(v) && r.chance(1, 2) {
+                if !bare && !base.contains(v) && r.chance(1, 2) {
                     l.push(v);
                 }
             }
